@@ -9,12 +9,12 @@ CHECKS = {
  "C02": ("model_checking", "deviation-bounded exhaustive DFS (E1) over legal model values of an independent reference model; every model trace is replayed against the implementation in both directions (model bytes -> real parser -> accessors; real constructors -> bytes -> reference decoder); plus result-independence histories (H1/H2, E4 depth 4) over every exported accessor of parsed values, with the caller overwriting the results it was handed",
          "Every model value within 2 (thorough 3) legal variations of the default of every structure is emitted by the independent model and validated against the real parser, and pushed through the real constructors and validated by the independent strict decoder. A consistent read/write-side change (swapped fields, moved key, dropped prefix) is caught because the reference shares no code with the library.",
          "Trusts refmodel (written from the 0.9.67 layouts; MetaLeaseSet per the repository's documented layout). Known findings: LEASESET2_MIN_SIZE / META_LEASESET_MIN_SIZE."),
- "C03": ("model_checking", "same exhaustive input space as C01 with truncation at every offset and appended-byte menus; oracles: suffix remainder, reference-decoder extent, append invariance, no accepted proper prefix",
+ "C03": ("model_checking", "same exhaustive input space as C01 with truncation at every offset and appended-byte menus; oracles: suffix remainder, reference-decoder extent, append invariance (every appended length 1..300 on default bases), no accepted proper prefix",
          "Every cut point of every base within the deviation bound, every appended byte for small structures, and the mutation menu; consumed length compared against an independent strict decoder (refmodel).",
          "refmodel strict decoders define the declared extent; known finding: RouterInfo peer_size != 0."),
  "C04": ("model_checking", "exhaustive feeding of the C01 input space to every parser (own family: all inputs; other families: all bases and all mutants of default bases), all 65,536 type codes for type-parameterised functions, reflective invocation of every exported method with argument menus; recover() + watchdog",
          "Every execution in the bounded space is run to completion under recover(); a panic anywhere or a call exceeding the watchdog is a violation with a replayable input.",
-         "No-hang: deterministic step-count bound steps <= 30000 + 600*len(input) measured on the instrumented (overlay) build in a single-threaded pass; the 120 s per-call watchdog is only a backstop."),
+         "Environment menu {silent, debug-level logging} explored for parsers and methods (a call that never returns ends the run with C04|hang via the per-call watchdog). No-hang: deterministic step-count bound steps <= 30000 + 600*len(input) measured on the instrumented (overlay) build in a single-threaded pass; the 120 s per-call watchdog is only a backstop."),
  "C14": ("model_checking", "E1 over constructor argument tuples x single-defect menu (explicit-state: constructor -> Validate -> Bytes -> Read -> Bytes chains on live values), plus the parser-output side over the C01 input space",
          "Every model value within the deviation bound is combined with every documented structural defect (and 'none'); the chain constructor/Validate/Bytes/parse is executed on the real code and the three inclusion clauses are checked. Every parser-accepted value that validates must round-trip cleanly.",
          "Known findings record constructor/validator drifts pinned by the repository's own tests (NewOfflineSignature expires=0, NewKeysAndCert nil keys, NewRouterInfo)."),
@@ -23,7 +23,7 @@ CHECKS = {
          "IsExpired is judged on every swept value with a one-day margin around the wall clock (exact expiry <= now-1d => expired, >= now+1d => not), with and without OFFLINE_KEYS."),
  "C16": ("model_checking", "E1 over LeaseSet2 values x key pairs x cookies under a deterministic rand.Reader; exhaustive tampering of every ciphertext byte; exhaustive product for blinding (types x secrets x instants x zones x factors) against an independent edwards25519 computation",
          "Every byte position of the selected ciphertexts is modified (8 bit flips; thorough: all 255 values) and must be rejected with a nil value; every (destination type, secret, instant, zone) tuple is blinded and compared with A + alpha*B computed independently.",
-         "alpha derivation (HKDF) is trusted from go-i2p/crypto; AEAD/X25519 primitives trusted."),
+         "Also plaintext lengths up to the largest LeaseSet2 that fits (65,475 bytes), unusual instants and unusual Ed25519 point encodings. alpha derivation (HKDF) is trusted from go-i2p/crypto; AEAD/X25519 primitives trusted."),
  "C17": ("exploration", "exhaustive product of host x port x key-variant x caps menus through constructor and parser paths, against independent three-valued IP/port recognisers; per entry a call history (result kept / caller overwrites its result / fresh lookup)",
          "Full product of a 50-host and 34-port menu plus key variants and caps; every static-key/IV length 0..40.",
          "Strings outside the menus are not enumerated; Unspecified forms only bound by the consistency clauses."),
@@ -35,13 +35,13 @@ CHECKS = {
          "Domains: declared key types for type-specific readers, permitted types for wrappers; builder compared on codes <= 65535."),
  "C20": ("model_checking", "exhaustive reflection over every exported type x zero receivers x argument-free methods, plus explicit-state exploration of partial values: every (base, cut point, parser) triple's returned-with-error value x every argument-free method",
          "The type list is regenerated from /repo's AST at every run, so new types/methods are included automatically; partial values are produced by truncating every base at every field boundary (thorough: every offset).",
-         "nil pointers returned with an error are not called through; mutating methods excluded."),
+         "Partial values also from every structure-aware mutation of the default bases; both settings of the logging environment {silent, debug}. nil pointers returned with an error are not called through; mutating methods excluded."),
  "C05": ("model_checking", "E1 over signed model structures x exhaustive adversarial derivations (forgery constructions, full structure-aware operator menu, a bit flip in every byte; buffer-reuse history for the structures C08 lists); every trace is executed by the real parser+verifier and judged by an independent verifier over the received bytes",
          "For every signed base within the deviation bound, every derivation in the menu is produced and run through the library; whenever the library reports success the independent VerifyRaw must agree. Positive controls are counted (vacuity is visible).",
          "Assumes unforgeability of the primitives: decides the verification logic (which key, which bytes, which prefix, authorisation of transient keys), not cryptanalysis."),
  "C06": ("model_checking", "E1 over constructor argument tuples (model values within the deviation bound, all private-key representations, all insertion orders of option sets) driven through the real signing constructors; four-step oracle incl. an independent verifier",
          "Every value the signing constructors build in the bounded argument space must verify, survive Bytes()+parse with empty remainder, verify again, and be accepted by the independent verifier.",
-         "Known findings: ECDSA keys cannot be verified by go-i2p/crypto (third party); LEASESET2_MIN_SIZE."),
+         "Also explicit-state exploration of construction HISTORIES (all ordered pairs / core triples of constructor calls; every read-only method between construction and re-verification). Known findings: ECDSA keys cannot be verified by go-i2p/crypto (third party); LEASESET2_MIN_SIZE."),
  "C07": ("model_checking", "E1 over the identity generator x every API path x every single-byte variant (all positions), constructor-only identities (P-521, field-assembled), and explicit-state exploration of all call sequences (<= 3, thorough 5) over the hashing entry points incl. failing readers, against SHA-256 / independent base32+base64 codecs",
          "Every identity within the deviation bound through 8 API paths; for each, every byte position is modified (two values) and hash/address/equality re-evaluated. Exhaustive over positions and paths for the enumerated identities.",
          "SHA-256 from the standard library; base codecs from refmodel."),
@@ -50,13 +50,13 @@ CHECKS = {
          "Mappings of LeaseSet2/MetaLeaseSet are outside the property and skipped by type."),
  "C09": ("model_checking", "explicit enumeration of (API path x type pair): 16 paths x full product of known+boundary codes, plus all 65,536 codes per axis on the reader paths; oracle = independent prohibited-type table",
          "All paths that can yield a Destination/RouterIdentity are driven with every known and boundary type pair; each axis is swept over the whole 16-bit space for the reader paths. A path that starts skipping the policy is reported with the path name.",
-         "The path list is hand-maintained (registry scan reports new byte-consuming entry points in C04's evidence)."),
+         "Declared types are read from the identity's own wire bytes as well as from its accessors; history paths: identities re-observed after blinding / AsDestination, certificate bytes rewritten through an accessor's slice, CertificateBuilder reuse. The path list is hand-maintained (registry scan reports new byte-consuming entry points in C04's evidence)."),
  "C10": ("exploration", "exhaustive sweep of all 65,536 type codes through every size lookup and behavioural table, against an independent spec table",
          "Every one of the 65,536 signing and crypto codes is pushed through all lookups and length-dependent parsers; all supported pairs x 3 fills for the block layout. Exhaustive over the stated domain, so agreement is decided, not sampled.",
-         "Trusts refmodel/tables.go (spec table) and the Go toolchain."),
+         "Also one certificate object stepped through all codes (exported type fields) and result-independence histories of the size accessors. Trusts refmodel/tables.go (spec table) and the Go toolchain."),
  "C11": ("exploration", "exhaustive enumeration of all small Go maps over a string menu, every insertion order, the size-limit family and a byte-walk, against an independent reference encoder",
          "Every map with <= 3 entries over a 12-string menu, every insertion order of the pair list (n <= 5), payload sizes 65,520..65,550 and string lengths 254/255/256; exhaustive inside those domains.",
-         "Go map iteration order cannot be steered (repeats are a secondary guard); strings outside the menu are not enumerated."),
+         "Pair-count family 256..4000 pairs (known finding: the parser's MAX_MAPPING_PAIRS); histories of mappings derived from a parsed mapping's strings. Go map iteration order cannot be steered (repeats are a secondary guard); strings outside the menu are not enumerated."),
  "C12": ("exploration", "exhaustive/boundary enumeration of (value,width), dates and string lengths against a math/big reference; explicit-state exploration of all call sequences (<= 3, thorough 4) over 56 primitive operations with earlier results re-compared after every step",
          "Widths 1-2 exhaustive, widths 3-8 boundary sets, every size -2..10, all 65,536 uint16/int16, every string length 0..300 and every (declared,actual) reader pair.",
          "Go int is 64-bit; random interior values of wide integers are not enumerated (boundary sets only)."),
